@@ -184,7 +184,8 @@ pub unsafe fn simd_prefix_search_avx2(
         if lt_mask == 0xFFFFFFFF {
             left = batch_start + AVX2_BATCH_SIZE;
             continue;
-        } else if lt_mask == 0 {
+        } else if lt_mask == 0 && eq_mask == 0 {
+            // every prefix in the batch is strictly greater than the target
             right = batch_start;
             continue;
         }
@@ -194,6 +195,7 @@ pub unsafe fn simd_prefix_search_avx2(
         if first_ge_idx > 0 {
             left = batch_start + first_ge_idx - 1;
         }
+        let window_right = right;
         right = batch_start + first_ge_idx.min(7) + 1;
 
         if eq_mask != 0 {
@@ -204,7 +206,13 @@ pub unsafe fn simd_prefix_search_avx2(
                 (31 - eq_mask.leading_zeros()) as usize / 4
             };
             left = left.min(batch_start + first_eq_idx);
-            right = right.max(batch_start + last_eq_idx + 1);
+            // Slots after the batch may carry the same prefix when its last lane still
+            // equals the target: keep the previous right bound in that case.
+            right = if last_eq_idx == 7 {
+                window_right
+            } else {
+                right.max(batch_start + last_eq_idx + 1)
+            };
         }
 
         break;
